@@ -794,16 +794,20 @@ fn large_probes(probes: &mut Vec<Probe>) {
     let orders: &[usize] = if level() == 0 { &[33] } else { &[33, 65] };
     for &n in orders {
         let vs: Vec<usize> = (0..n).collect();
-        let shapes: Vec<(&str, Vec<(usize, usize)>)> = vec![
+        let mut shapes: Vec<(&str, Vec<(usize, usize)>)> = vec![
             ("path", (0..n - 1).map(|u| (u, u + 1)).collect()),
             ("cycle", (0..n).flat_map(|u| [(u, (u + 1) % n), ((u + 1) % n, u)]).collect()),
             ("hops of 32", (0..n).flat_map(|u| [(u, (u + 1) % n), (u, (u + 32) % n)]).filter(|&(a, b)| a != b).collect()),
         ];
+        if level() == 0 {
+            // mini catalogue (Miri): the two shapes that cross the 32-boundary in one hop
+            shapes.retain(|(n, _)| *n != "cycle");
+        }
         for (sname, arcs) in shapes {
             macro_rules! rep {
                 ($t:ty, $tn:expr) => {{
                     let d0 = std::rc::Rc::new(<$t as Build>::build(&vs, &arcs));
-                    let srcs: Vec<Vec<usize>> = vec![vec![0], vec![32], vec![n - 1], vec![n], vec![1000], vec![0, 32], vec![]];
+                    let srcs: Vec<Vec<usize>> = if level() == 0 { vec![vec![0], vec![32], vec![n], vec![0, 32]] } else { vec![vec![0], vec![32], vec![n - 1], vec![n], vec![1000], vec![0, 32], vec![]] };
                     for s in srcs {
                         let d = std::rc::Rc::clone(&d0);
                         let ood = s.iter().any(|&x| x >= n);
